@@ -146,7 +146,7 @@ func c07Inputs(rng *Rng, cfg *configuration.Configuration, tier string) ([]byte,
 	case 12:
 		// every depth is cheap on a tree that stops at the configured limit before parsing; 3 000 000
 		// levels exhaust the goroutine stack of a parser that does not
-		depths := []int{10, 999, 1001, 5000, 20000, 100000, 3000000, 3000000}
+		depths := []int{10, 999, 1001, 5000, 20000, 100000, 300000, 3000000}
 		n := depths[rng.Intn(len(depths))]
 		open := []string{"[", "(", "@(", "{1=", "&a:[", "@a{", "@a<", "@a{[", "{\"k\"=@a{", "[@u8x[] ", "&m:&n:", "[/**/"}[rng.Intn(12)]
 		if (open == "&m:&n:" || open == "@(") && n > 5000 {
@@ -287,6 +287,11 @@ func runC07(r *Run) {
 		}
 		t0 := time.Now()
 		defer func() { r.out.Add("ms:"+strings.SplitN(what, "-nested-", 2)[0], int(time.Since(t0).Milliseconds())) }()
+		if len(doc) > 2000000 {
+			// megabytes of nesting: one entry point of each family is enough (every one of them copies the
+			// document into a rune slice before anything else happens)
+			eps = []ep{eps[0], eps[5], eps[7], eps[10], eps[13]}
+		}
 		for _, e := range eps {
 			// the format-specific entry points get every input too: a CTE text is just a malformed CBE document
 			note(idx, e.name+" "+what+" template="+tname, doc)
